@@ -167,24 +167,43 @@ func pollmgrScenario(n0, pickers int, reconfig string) *vsched.Scenario {
 			if !rr[ph] {
 				continue
 			}
+			// All picks of one phase draw consecutive values of one counter: the concurrent ones
+			// first (they have all returned before the sequential ones start), then the
+			// sequential ones in order. Every prefix of that sequence is therefore a contiguous
+			// range of the round-robin and must be even over the configured pollers.
 			cnt := map[int]int{}
-			for _, fd := range sp {
+			for _, p := range picks {
+				if p.phase == ph {
+					cnt[p.epfd]++
+				}
+			}
+			spread := func() int {
+				mn, mx := 1<<30, 0
+				for _, c := range cnt {
+					if c < mn {
+						mn = c
+					}
+					if c > mx {
+						mx = c
+					}
+				}
+				if len(cnt) < configured[ph] {
+					mn = 0
+				}
+				return mx - mn
+			}
+			if d := spread(); d > 1 {
+				add("round-robin-uneven", fmt.Sprintf("phase %d: per-poller counts of the %d concurrent picks differ by %d", ph, pickers, d))
+			}
+			for j, fd := range sp {
 				cnt[fd]++
+				if d := spread(); d > 1 {
+					add("round-robin-uneven", fmt.Sprintf("phase %d: per-poller counts of the %d concurrent picks plus the next %d consecutive picks differ by %d", ph, pickers, j+1, d))
+					break
+				}
 			}
 			if len(cnt) != configured[ph] {
-				add("round-robin-coverage", fmt.Sprintf("phase %d: %d consecutive picks used %d distinct pollers, %d configured", ph, len(sp), len(cnt), configured[ph]))
-			}
-			mn, mx := 1<<30, 0
-			for _, c := range cnt {
-				if c < mn {
-					mn = c
-				}
-				if c > mx {
-					mx = c
-				}
-			}
-			if mx-mn > 1 {
-				add("round-robin-uneven", fmt.Sprintf("phase %d: per-poller counts of %d consecutive picks differ by %d", ph, len(sp), mx-mn))
+				add("round-robin-coverage", fmt.Sprintf("phase %d: %d picks used %d distinct pollers, %d configured", ph, pickers+len(sp), len(cnt), configured[ph]))
 			}
 		}
 		return vs
